@@ -307,8 +307,14 @@ def run_check(pid, tier, module):
     try:
         try:
             module.run(ctx)
-        finally:
-            pass
+        except BrokenCheck:
+            raise
+        except Exception as e:  # noqa
+            # an implementation that already disagreed with the model / failed the oracle may also break assumptions of the harness:
+            # the verdict is then given on what was recorded before; without any recorded disagreement the check itself is broken
+            if not (ctx.failures or ctx.divergences):
+                raise
+            ctx.notes['harness_aborted'] = f'{type(e).__name__}: {e}'[:300] + ' | ' + traceback.format_exc()[-600:]
         broken_obligation = None
         if not lean['ok']:
             broken_obligation = lean['detail']
